@@ -1770,10 +1770,12 @@ get_preprocessor_args(int c, string &args) {
   c = skip_comment(c);
 
   while (c != EOF && c != '\n') {
-    if (c == '"' || c == '\'') {
+    if (c == '"' ||
+        (c == '\'' && (args.empty() || !isalnum((unsigned char)args[args.size() - 1])))) {
       // Copy a string or character literal as it is, so that a "/*" or "//"
       // inside it is not taken for a comment.  An unterminated literal ends
-      // at the end of the line.
+      // at the end of the line.  (A ' that follows a digit or letter is a
+      // digit separator.)
       int quote_mark = c;
       args += c;
       c = get();
@@ -2082,7 +2084,9 @@ skip_false_if_block(bool consider_elifs) {
   VERIF_EVENT("{\"e\":\"SkipEnter\",\"celifs\":" << (consider_elifs ? 1 : 0) << "}");
 
   int c = skip_comment(get());
+  int prev_c = '\n';
   while (c != EOF) {
+    int this_c = c;
     if (c == '#' && _start_of_line) {
       // Stay on this line (see process_directive).
       c = skip_comment(get());
@@ -2139,10 +2143,11 @@ skip_false_if_block(bool consider_elifs) {
         }
         level--;
       }
-    } else if (c == '"' || c == '\'') {
+    } else if (c == '"' || (c == '\'' && !isalnum(prev_c))) {
       // Step over a string or character literal, so that a "/*" inside it is
       // not taken for the start of a comment.  An unterminated literal ends
-      // at the end of the line.
+      // at the end of the line.  (A ' that follows a digit or letter is a
+      // digit separator.)
       int quote_mark = c;
       c = get();
       while (c != EOF && c != '\n' && c != quote_mark) {
@@ -2160,6 +2165,7 @@ skip_false_if_block(bool consider_elifs) {
     } else {
       c = skip_comment(get());
     }
+    prev_c = (this_c >= 0 && this_c < 256) ? this_c : '\n';
   }
 
   VERIF_EVENT("{\"e\":\"SkipEOF\"}");
